@@ -1,5 +1,50 @@
+/- PARSE suite of the driver: runs `Garnish.Model.Parser.parse` on a token list given directly in the case line.
+   Case:   PARSE \t id \t TypeName,<escaped text> \t ...   (optional first field `!errclass`: print the error class)
+   Result: `ok root=<n>` then per node `\tDefinition/SecDef,parent,left,right,TokenTypeName,<escaped text>` | `err` -/
 import Garnish.Driver.Proto
+import Garnish.Model.Parser
 namespace Garnish.Driver
-/-- PARSE suite (stub, replaced by the parser model's driver) -/
-def parseCase (_f : List String) : String := "UNIMPLEMENTED"
+open Garnish Garnish.Gen Garnish.Model.Parser
+
+/-- `TypeName,<escaped text>` → token (row/col are 0 as in the harness) -/
+def parseTokenField (s : String) : Option PToken :=
+  let cs := s.toList
+  let name := cs.takeWhile (· != ',')
+  match cs.dropWhile (· != ',') with
+  | [] => none
+  | _ :: text =>
+    match TokenType.ofName? (String.ofList name) with
+    | none => none
+    | some tt => some { text := Garnish.Proto.unescape text, type := tt, row := 0, col := 0 }
+
+def parseTokenFields : List String → Option (List PToken)
+  | [] => some []
+  | f :: rest =>
+    match parseTokenField f, parseTokenFields rest with
+    | some t, some ts => some (t :: ts)
+    | _, _ => none
+
+def showOptNat : Option Nat → String
+  | none => "-"
+  | some n => toString n
+
+def showNode (n : ParseNode) : String :=
+  s!"\t{n.definition.name}/{n.secondaryDefinition.name},{showOptNat n.parent},{showOptNat n.left},{showOptNat n.right},{n.lexToken.type.name},{Garnish.Proto.escape n.lexToken.text}"
+
+def showParseOutcome (errclass : Bool) : Outcome ParseResult → String
+  | .ok r => r.nodes.foldl (fun acc n => acc ++ showNode n) s!"ok root={r.root}"
+  | .err e => if errclass then s!"err {e.name}" else "err"
+  | .panic site => s!"PANIC {site}"
+  | .fuelOut => "FUELOUT"
+
+def parseCase (f : List String) : String :=
+  let fields := f.drop 2
+  let (errclass, fields) :=
+    match fields with
+    | "!errclass" :: rest => (true, rest)
+    | _ => (false, fields)
+  match parseTokenFields fields with
+  | none => "BAD-CASE"
+  | some tokens => showParseOutcome errclass (parse tokens)
+
 end Garnish.Driver
